@@ -159,6 +159,11 @@ func genBlackbox(r *rand.Rand, nQueries int) *BBWitness {
 			}
 			g.tagVals[k] = append(append([]string{}, dom[k]...), "nosuch")
 		}
+		for k := range key {
+			g.keyTags = append(g.keyTags, k)
+		}
+		sort.Strings(g.keyTags)
+		g.keyOnly = r.IntN(100) < 25
 		cond := g.gen(1 + r.IntN(5))
 		text := cond.String()
 		bare := r.IntN(100) < 25
@@ -257,14 +262,14 @@ func ctrl(s *proc.Server, params string) error {
 
 // startAndLoad starts both servers in parallel, applies the steps and waits until every
 // written point is visible to queries. Returns false (after reporting) if that failed.
-func startAndLoad(c *vf.Ctx, w *BBWitness, tag string) (*bbServers, bool) {
+func startAndLoad(c *vf.Ctx, w *BBWitness, tag string, ipBase int) (*bbServers, bool) {
 	bin, err := proc.Build(c.RepoDir, c.Scratch, "ts-server", false)
 	if err != nil {
 		c.Broken("build ts-server: %v", err)
 		return nil, false
 	}
 	mk := func(i, pt int) *proc.Server {
-		return proc.New(proc.Config{Bin: bin, Dir: fmt.Sprintf("%s/bb-%s-%d", c.Scratch, tag, pt), IP: proc.IP(propNum, i), PtNum: pt})
+		return proc.New(proc.Config{Bin: bin, Dir: fmt.Sprintf("%s/bb-%s-%d", c.Scratch, tag, pt), IP: proc.IP(propNum, ipBase+i), PtNum: pt})
 	}
 	b := &bbServers{one: mk(0, 1), many: mk(1, w.PtN)}
 	var wg sync.WaitGroup
@@ -277,7 +282,7 @@ func startAndLoad(c *vf.Ctx, w *BBWitness, tag string) (*bbServers, bool) {
 				errs[i] = err
 				return
 			}
-			if err := s.WaitReady(120 * time.Second); err != nil {
+			if err := s.WaitReady(300 * time.Second); err != nil {
 				errs[i] = err
 				return
 			}
@@ -296,7 +301,7 @@ func startAndLoad(c *vf.Ctx, w *BBWitness, tag string) (*bbServers, bool) {
 				}
 			}
 			// visibility rule: wait until every measurement shows all its points
-			deadline := time.Now().Add(60 * time.Second)
+			deadline := time.Now().Add(150 * time.Second)
 			for {
 				missing := ""
 				for m, n := range w.Expect {
@@ -407,26 +412,36 @@ func trunc(s string) string {
 }
 
 func blackbox(c *vf.Ctx) {
-	r := c.Rand(7)
-	w := genBlackbox(r, c.Pick(150, 1500))
-	b, ok := startAndLoad(c, w, "main")
-	if !ok {
-		return
+	// quick: one server pair, 150 queries; thorough: three pairs (fresh data, partition
+	// count drawn per pair), 1500 queries each
+	rounds := c.Pick(1, 3)
+	var pts []int
+	for round := 0; round < rounds; round++ {
+		r := c.Rand(uint64(7 + round))
+		w := genBlackbox(r, c.Pick(150, 1500))
+		b, ok := startAndLoad(c, w, fmt.Sprintf("r%d", round), 2*round)
+		if !ok {
+			return
+		}
+		total := 0
+		for _, n := range w.Expect {
+			total += n
+		}
+		pts = append(pts, w.PtN)
+		c.Count("blackbox-points-written", int64(total))
+		c.Count("blackbox-server-pairs", 1)
+		c.Distinct("blackbox-ptnum-pernode", fmt.Sprintf("1-vs-%d", w.PtN))
+		if round == 0 {
+			c.Sample(map[string]any{"part": "blackbox", "ptnum_pernode": w.PtN, "setup": []string{w.Steps[0].Stmt, w.Steps[1].Stmt, w.Steps[2].Stmt},
+				"queries": []string{w.Queries[0].Text, w.Queries[1].Text, w.Queries[2].Text}})
+		}
+		runBlackboxQueries(c, w, b)
+		b.kill()
 	}
-	defer b.kill()
-	total := 0
-	for _, n := range w.Expect {
-		total += n
-	}
-	c.Count("blackbox-points-written", int64(total))
-	c.Extra("blackbox-ptnum-pernode", []int{1, w.PtN})
-	c.Sample(map[string]any{"part": "blackbox", "ptnum_pernode": w.PtN, "setup": []string{w.Steps[0].Stmt, w.Steps[1].Stmt, w.Steps[2].Stmt},
-		"queries": []string{w.Queries[0].Text, w.Queries[1].Text, w.Queries[2].Text}})
-	runBlackboxQueries(c, w, b)
 }
 
 func replayBlackbox(c *vf.Ctx, w *BBWitness) {
-	b, ok := startAndLoad(c, w, "replay")
+	b, ok := startAndLoad(c, w, "replay", 10)
 	if !ok {
 		return
 	}
